@@ -30,4 +30,4 @@ Also produce a demonstration: a Go test file (a new _test.go file in the relevan
 Environment: no network. Every shell command must start with: export GOFLAGS=-mod=mod GOPROXY=off GOSUMDB=off GOTOOLCHAIN=local
 Build: cd /tmp/wt-{name} && go build ./... ; test a package: go test -vet=off -count=1 ./pkg/<name>/  (the full suite takes several minutes; run at least the packages you touched and their direct users).
 
-Steps: read the relevant code (anchors: {', '.join(p['anchors']['files'][:8])}), pick the change, write the demonstration test, verify: (1) with the change: build ok, existing tests of touched packages pass, demo test fails; (2) without the change (git stash or git diff > patch; git checkout): demo test passes. Leave the worktree with the change APPLIED and the demo test present, and write /tmp/wt-{name}/SEEDED.md containing: the property id, a description of the change, what is needed for it to manifest, the exact commands you ran and their results. Your final answer should summarise the change in 5 lines or less.""")
+Steps: read the relevant code (anchors: {', '.join(p['anchors']['files'][:8])}), pick the change, write the demonstration test, verify: (1) with the change: build ok, existing tests of touched packages pass, demo test fails; (2) without the change (save the change with `git diff > /tmp/wt-{name}.patch` and undo it with `git apply -R`; do NOT use git stash - the stash is shared with other worktrees): demo test passes. Leave the worktree with the change APPLIED and the demo test present, and write /tmp/wt-{name}/SEEDED.md containing: the property id, a description of the change, what is needed for it to manifest, the exact commands you ran and their results. Your final answer should summarise the change in 5 lines or less.""")
